@@ -40,14 +40,14 @@ prop("C01", title="operation sequences behave like std Vec", equiv=["EquivElem.p
 prop("C02", title="exactly-once ownership", equiv=[], trusted=[HAND, EXTR, UBDEF])
 prop("C03", title="allocator contract", equiv=["EquivGrow.grow_equiv", "EquivDrop.drop_equiv"], trusted=[HAND, EXTR, UBDEF, "the GlobalAlloc contract as written in Machine.do_realloc/do_dealloc"])
 prop("C04", title="panic safety", equiv=[], trusted=[HAND, EXTR, UBDEF])
-prop("C05", title="forget safety", trusted=[HAND, EXTR, UBDEF])
+prop("C05", title="forget safety", equiv=["EquivDrain.drain_filter_equiv"], trusted=[HAND, EXTR, UBDEF])
 prop("C06", title="never-allocated vector", equiv=["EquivAsPtr.as_ptr_equiv"], trusted=[HAND, EXTR, UBDEF], profiles="dr")
 prop("C07", title="capacity honest / reservation contract / stability", equiv=["EquivCap.len_equiv", "EquivCap.capacity_equiv", "EquivCap.reserve_exact_equiv", "EquivCap.shrink_to_fit_equiv", "EquivCap.shrink_to_equiv", "EquivReserve.reserve_equiv", "EquivReserve.reserve_equiv_policy"], trusted=[HAND, EXTR])
 prop("C08", title="alignment", equiv=["EquivAlign.alignment_equiv", "EquivMaxAlign.max_align_equiv"], trusted=[HAND, EXTR])
 prop("C09", title="impossible sizes", equiv=["next_aligned_equiv", "make_layout_equiv"], quick_n=480, thorough_n=4000, child_timeout=15,
      trusted=[HAND, EXTR, "Eval.v's reading of usize arithmetic (panic in debug, wrap in release), checked_add/checked_mul and Layout::from_size_align"])
-prop("C10", title="iterator protocol", equiv=["EquivIter.drain_next_equiv", "EquivIter.drain_next_back_equiv", "EquivIter.into_next_equiv", "EquivIter.into_next_back_equiv", "EquivIter.into_len_equiv", "EquivIter.into_size_hint_equiv"], trusted=[HAND, EXTR])
-prop("C11", title="out-of-range arguments rejected atomically", equiv=[], trusted=[HAND, EXTR])
+prop("C10", title="iterator protocol", equiv=["EquivIter.drain_next_equiv", "EquivIter.drain_next_back_equiv", "EquivIter.into_next_equiv", "EquivIter.into_next_back_equiv", "EquivIter.into_len_equiv", "EquivIter.into_size_hint_equiv", "EquivDrain.into_new_equiv"], trusted=[HAND, EXTR])
+prop("C11", title="out-of-range arguments rejected atomically", equiv=["EquivDrain.drain_equiv", "EquivDrain.splice_equiv"], trusted=[HAND, EXTR])
 prop("C12", title="clones deep and independent", trusted=[HAND, EXTR, UBDEF])
 prop("C13", title="handle is one pointer wide with a niche", impl="sizes",
      trusted=["coq/Layout.v: rustc's repr(Rust) struct layout rules are MODELLED (40 lines), not verified; "
